@@ -78,6 +78,10 @@ class C15(Check):
                 p_indicator_bounds=0.6,
                 objectives=OBJECTIVES if with_obj else [], n_objectives=(1, 1) if rng.random() < 0.8 else (2, 2),
             )
+        if with_obj and not simple and rng.random() < 0.15:
+            # due-date indicators as objectives (optimum 0 or negative); no optional tasks, see C07
+            prof = dict(prof, p_optional=0.0, p_due=0.7, indicators=["Tardiness", "Earliness", "NumberOfTardyTasks", "MaximumLateness"],
+                        objectives=["MinimizeIndicator", "MinimizeIndicator", "MaximizeIndicator"], n_objectives=(1, 1), slack=(2, 8))
         spec = gen.gen_spec(keyed_rng(run_seed, "spec"), prof)
         logics = logic_class(spec)
         n_clients = rng.randint(2, 4)
@@ -110,6 +114,20 @@ class C15(Check):
                 st = self.steer(rng, 30 + k)
                 if st and not spec.get("objectives"):
                     step["default"] = {"steer": st}
+                elif spec.get("objectives") and cfg.get("optimizer") != "optimize":
+                    # search-order options decide which model the incremental loop starts from: let it start
+                    # on a declared bound of the objective's indicator, on 0, or far from the optimum
+                    o = spec["objectives"][0]
+                    ind = next((i for i in spec.get("indicators", []) if i["id"] == o.get("indicator")), None) if len(spec["objectives"]) == 1 else None
+                    direction = gen.objective_direction(o["kind"])
+                    r = rng.random()
+                    if ind is not None and ind.get("bounds") and r < 0.6:
+                        step["env"] = [{"steer": {"mode": "pin", "pins": {"OBJ": rng.choice(ind["bounds"])}, "tag": "bound"}}]
+                    elif len(spec["objectives"]) == 1 and r < 0.75:
+                        step["env"] = [{"steer": {"mode": "pin", "pins": {"OBJ": 0}, "tag": "zero"}}]
+                    else:
+                        step["env"] = [{"steer": {"mode": "greedy", "bias": "high" if direction == "min" else "low", "key": 70 + k,
+                                                  "groups": ["time", "flag", "busy", "horizon"]}}]
             script.append(step)
         return {"property": self.pid, "run_seed": run_seed, "sim_version": 1, "tier": tier, "clients": clients, "script": script}
 
